@@ -154,6 +154,25 @@ def w07_sqlite_delete_uncommitted(tmp):
     return None
 
 
+def w21_sqlite_failed_bulk_insert_uncounted(tmp):
+    import sqlite3
+    s = _sqlite(tmp)
+    _mk(s, "b")
+    bad = _ev(0, 86400 * 200_000_000, {})  # end instant does not fit SQLite's 64-bit INTEGER
+    for _ in range(3):
+        try:
+            s.insert_many("b", [_ev(i, 1, {}) for i in range(40)] + [bad])
+        except OverflowError:
+            pass
+    c2 = sqlite3.connect(os.path.join(tmp, "w.db"))
+    n = c2.execute("SELECT count(*) FROM events").fetchone()[0]
+    c2.close()
+    mine = s.conn.execute("SELECT count(*) FROM events").fetchone()[0]
+    if mine - n > 50:
+        return f"{mine} rows written by three failing bulk inserts, only {n} committed (uncounted, unbounded)"
+    return None
+
+
 def w08_sqlite_age_commit(tmp):
     import sqlite3
     import aw_datastore.storages.sqlite as sq
